@@ -204,6 +204,84 @@ def run_index_case(phase, grepo, leaf_name, earlier, provider):
     return not bad, obs
 
 
+# ---- third family: two registered languages, a model of one importing a model of the other; each meta-model may have its own global repository
+def run_lang_case(phase, bad_file, grepo_app, grepo_lib):
+    import textx
+    from textx.scoping import providers as P
+
+    d = os.path.join(core.rundir(), "c18l-%d" % os.getpid())
+    os.makedirs(d, exist_ok=True)
+    for f in os.listdir(d):
+        os.remove(os.path.join(d, f))
+    textx.clear_language_registrations()
+    app, lib = make("plain", grepo_app), make("plain", grepo_lib)
+    textx.register_language("c18app", pattern="*.app", metamodel=app)
+    textx.register_language("c18lib", pattern="*.lib", metamodel=lib)
+    good = {"f0.app": 'import "f1.lib"\ndef d0\nref r0 -> d0\nref r1 -> d1\n', "f1.lib": "def d1\nref r2 -> d1\n"}
+    marker = {"syntax": "def\n", "unresolved": "ref bad -> nosuchdef\n", "procfail": None, "modelproc": None}
+    obs = {"family": "two languages", "phase": phase, "failing_file": bad_file, "global_repository": [grepo_app, grepo_lib]}
+    bad = []
+
+    def write(broken):
+        for fn, text in good.items():
+            if broken and fn == bad_file:
+                if phase in ("procfail", "modelproc"):
+                    text = text.replace("def d", "def %s\ndef d" % ("boom" if phase == "procfail" else "failmodel"), 1)
+                else:
+                    text += marker[phase]
+            with open(os.path.join(d, fn), "w") as f:
+                f.write(text)
+
+    def repos():
+        return {n: sorted(os.path.basename(k) for k in mm._tx_model_repository.all_models.filename_to_model)
+                for n, mm in (("app", app), ("lib", lib)) if hasattr(mm, "_tx_model_repository")}
+    try:
+        write(True)
+        try:
+            app.model_from_file(os.path.join(d, "f0.app"))
+            bad.append(("load with a failing file succeeded",))
+        except Exception as e:
+            obs["error"] = "%s: %s" % (type(e).__name__, str(e).replace(d, "<dir>")[:100])
+            if phase != "syntax" and type(e).__name__ == "TextXSyntaxError":
+                raise core.HarnessError("two-language family, phase %s: %s" % (phase, obs["error"]))
+        left = {k: v for k, v in repos().items() if v}
+        if left:
+            bad.append(("global repositories after the failure", left))
+        write(False)
+        m = app.model_from_file(os.path.join(d, "f0.app"))
+        libs = [x for x in m._tx_model_repository.all_models if x is not m]
+        if len(libs) != 1:
+            bad.append(("models after the repaired load", len(libs) + 1))
+        else:
+            tg = {r.name: r.target for r in m.refs}
+            if tg["r0"] is not m.defs[0] or tg["r1"] is not libs[0].defs[0] or libs[0].refs[0].target is not libs[0].defs[0]:
+                bad.append(("identity of references after the repaired load",))
+            if any(hasattr(x, "_tx_reference_resolver") for x in [m] + libs):
+                bad.append(("model still marked as under construction",))
+    except core.HarnessError:
+        raise
+    except Exception as e:
+        import traceback
+
+        bad.append(("exception", "%s: %s" % (type(e).__name__, str(e).replace(d, "<dir>")), traceback.format_exc()[-300:]))
+    finally:
+        textx.clear_language_registrations()
+    obs["failures"] = bad[:3]
+    return not bad, obs
+
+
+def work_lang(arg):
+    u = Unit()
+    for c in arg:
+        with watchdog(30):
+            ok, obs = run_lang_case(*c)
+        u.case(["languages"] + list(c), nontrivial=True, sample=obs)
+        u.count("two-language family phase:%s -> %s" % (c[0], obs.get("error", "no error").split(":")[0]))
+        if not ok:
+            u.fail(["languages"] + list(c), {"languages": list(c)}, sig="languages %s | %s" % (obs["failures"][0][0], c[0]), what=str(obs)[:500])
+    return u
+
+
 def work_index(arg):
     u = Unit()
     for c in arg:
@@ -250,10 +328,13 @@ def run(ctx):
     icases = [(ph, gr, leaf, earlier, prov) for ph in PHASES for gr in (False, True) for leaf in ("b_leaf", "z_leaf") for earlier in (False, True)
               for prov in ("PlainNameGlobalRepo", "FQNGlobalRepo")]
     ctx.pmap(work_index, [icases[i:i + 4] for i in range(0, len(icases), 4)])
+    lcases = [(ph, bf, ga, gl) for ph in PHASES for bf in ("f0.app", "f1.lib") for ga in (False, True) for gl in (False, True)]
+    ctx.pmap(work_lang, [lcases[i:i + 4] for i in range(0, len(lcases), 4)])
     return {
         "rule": "case = (import digraph, failing closure file, phase in %s, global repository on/off, earlier history in %s, provider); all digraphs over 2 "
                 "files and %s over 3 files; every case is a failing load followed by a repaired load; second family: a caller-owned GlobalModelRepository filled through "
-                "GlobalRepo.load_models_in_model_repo (phase x global repository x failing file loaded before/after its user x earlier successful load x provider)" % (PHASES, HISTORIES, "every 8th digraph" if ctx.tier == "quick" else "all 512 digraphs"),
+                "GlobalRepo.load_models_in_model_repo (phase x global repository x failing file loaded before/after its user x earlier successful load x provider); third family: two registered languages, each meta-model "
+                "with or without its own global repository, f0.app importing f1.lib, every phase failing in either file" % (PHASES, HISTORIES, "every 8th digraph" if ctx.tier == "quick" else "all 512 digraphs"),
         "exhaustive": True, "cases": len(cases),
     }, ["the failing file is f0's closure member; failures are injected by text (syntax, unresolved reference) or by marker definitions that make a processor raise"]
 
@@ -261,5 +342,7 @@ def run(ctx):
 def replay(p):
     if "index" in p:
         return run_index_case(*p["index"])
+    if "languages" in p:
+        return run_lang_case(*p["languages"])
     g = tuple(tuple(x) for x in p["graph"])
     return run_case(g, p["bad_file"], p["phase"], p["grepo"], p["history"], p.get("provider", "plain"))
